@@ -185,33 +185,3 @@ func CheckSiblings(c *core.Ctx, rule string) {
 				p.What, a.Name(), b.Name(), a.Name(), oa, b.Name(), ob))
 	}
 }
-
-// LengthFingerprint checks the mask/shift constants of an RDB length decoder:
-// tag = top two bits (>> 6, optionally after & 0xc0), value bits & 0x3f in the
-// 6-bit, 14-bit and encoded forms, high part << 8 in the 14-bit form.
-func LengthFingerprint(c *core.Ctx, rule string, fn *core.Fn) {
-	if fn == nil {
-		return
-	}
-	fp := Fingerprint(fn.Pkg.TypesInfo, fn.Decl.Body)
-	count := map[string]int{}
-	for _, x := range fp {
-		count[x]++
-	}
-	want := map[string]int{"& 63": 3, "<< 8": 1, ">> 6": 1}
-	var bad []string
-	for k, v := range want {
-		if count[k] != v {
-			bad = append(bad, fmt.Sprintf("%q x%d (expected x%d)", k, count[k], v))
-		}
-	}
-	// no other mask or shift constants (except the optional tag mask & 192)
-	for k, v := range count {
-		if (strings.HasPrefix(k, "& ") || strings.HasPrefix(k, "<< ") || strings.HasPrefix(k, ">> ")) && want[k] == 0 && k != "& 192" {
-			bad = append(bad, fmt.Sprintf("unexpected %q x%d", k, v))
-		}
-	}
-	sort.Strings(bad)
-	c.Check(rule, fn.Name(), fn.Decl.Pos(), len(bad) == 0,
-		fmt.Sprintf("the RDB length decoder must take the tag from the top two bits (>> 6) and the value from the low six bits (& 0x3f) of the first byte, with the 14-bit form's high part shifted by 8; found %v: some lengths decode to other values", bad))
-}
